@@ -1,6 +1,6 @@
 /-
 C01 line-protocol driver (grammar: see Proto.lean). Answer: for every operation of the history
-  <result>|<config read back>|<who holds a socket on every address>|<guest / hosts pool refs>|<certmagic default storage>
+  <result>|<config read back>|<who holds a socket on every address>|<guest / hosts pool refs>|<certmagic default storage>|<whose default log is the process default logger>
 joined by spaces; `bad-op` for anything malformed.
 -/
 import CaddyModel.C01.Proto
@@ -9,15 +9,20 @@ namespace CaddyModel.C01
 open CaddyModel.Lifecycle CaddyModel.Lifecycle.Proto
 
 def showStep (p : Res × State) : String :=
-  showRes p.1 ++ "|" ++ (match p.2.raw with | some c => showCfg c | none => "null") ++ "|" ++ showSocks p.2.socks ++ "|" ++ showPool p.2.mpool ++ "|" ++ toString p.2.dstor
+  showRes p.1 ++ "|" ++ (match p.2.raw with | some c => showCfg c | none => "null") ++ "|" ++ showSocks p.2.socks ++ "|" ++ showPool p.2.mpool ++ "|" ++ toString p.2.dstor ++ "|" ++ toString p.2.dlogger
 
 def handle (fs : List String) : String :=
   match parseCase fs with
   | none => "bad-op"
   | some ops => " ".intercalate ((trace State.init ops).map showStep)
 
-/-- counter-example lines replayed on the implementation on every run: none — every clause holds
-    at full strength (the former F2 and F21 witnesses are regression cases in corpus/C01) -/
-def witnessLines : List String := []
+/-- counter-example lines replayed on the implementation on every run (proved in Witness.lean,
+    `default_logger_full_fails`, finding F22 — caddy.Log() is left at the default log of a
+    configuration that is not running): over a running config (a) a load rejected while
+    provisioning an app, (b) a successful Validate. (The former F2 and F21 witnesses are regression
+    cases in corpus/C01.) -/
+def witnessLines : List String :=
+  ["L=0~-~0,1,0,-,-=1,0,0,-,0,0 L=0~-~0,1,3,-,-~0:1=1,0,0,-,0,-",
+   "L=0~-~0,1,0,-,-=1,0,0,-,0,0 V=0~-~0,3,0,-,-~0:2=0,0,0,-,0,-"]
 
 end CaddyModel.C01
